@@ -5,7 +5,7 @@
    kind i = true: pack i is a tree pack.  content k: the bytes that belong to id k
    (content addressing: the same id is always written with the same bytes). *)
 From Verif.Base Require Import Tactics.
-From Verif.C16 Require Import ModelBase Extracted Model Proofs Proofs2 Proofs3.
+From Verif.C16 Require Import ModelBase Extracted Model Proofs Proofs2 Proofs3 Proofs4.
 Local Open Scope N_scope.
 
 (* After EVERY inner call (micro-step) of EVERY sequence of write_bytes / remove / save_config
@@ -112,3 +112,10 @@ Theorem repair_unfixed_rule_destroys_cold :
     get k (hot (repair_type_r HotOnlyNotInCold (fst k) (fun _ => true) x)) = Some b.
 Proof. exact repair_unfixed_rule_destroys_cold_lemma. Qed.
 Print Assumptions repair_unfixed_rule_destroys_cold.
+
+(* The executable checker that the e2e stage runs on every prefix of a recorded log of inner calls
+   (replayed from the empty repository) decides the property. *)
+Theorem inv_b_decides_on_replay : forall kind l,
+  inv_b kind (replay l empty_st) = true <-> HotComplete kind (replay l empty_st).
+Proof. exact inv_b_decides_on_replay_lemma. Qed.
+Print Assumptions inv_b_decides_on_replay.
